@@ -6,7 +6,7 @@ use crate::xtypes::{
     type_object::TypeIdentifier,
     type_support::TypeSupport,
 };
-use alloc::{string::ToString, vec::Vec};
+use alloc::vec::Vec;
 
 type RepresentationIdentifier = [u8; 2];
 const CDR_BE: RepresentationIdentifier = [0x00, 0x00];
@@ -211,7 +211,7 @@ impl<'a, E: EndiannessWrite, V: EncodingVersion> XTypesSerializer<'a, E, V> {
             TypeKind::FLOAT128 => self.serialize_primitive_type(v.get_float128_value(member_id)?),
             TypeKind::INT8 => self.serialize_primitive_type(v.get_int8_value(member_id)?),
             TypeKind::UINT8 => self.serialize_primitive_type(v.get_uint8_value(member_id)?),
-            TypeKind::CHAR8 => self.serialize_primitive_type(v.get_char8_value(member_id)?),
+            TypeKind::CHAR8 => self.serialize_char8_type(*v.get_char8_value(member_id)?)?,
             TypeKind::CHAR16 => todo!(),
             TypeKind::STRING8 => self.serialize_string_type(v.get_string_value(member_id)?),
             TypeKind::STRING16 => self.serialize_wstring_type(v.get_string_value(member_id)?),
@@ -268,7 +268,11 @@ impl<'a, E: EndiannessWrite, V: EncodingVersion> XTypesSerializer<'a, E, V> {
             }
             TypeKind::INT8 => serialize_primitive_slice(self, v.get_int8_values(member_id)?),
             TypeKind::UINT8 => self.writer.write_slice(v.get_uint8_values(member_id)?),
-            TypeKind::CHAR8 => serialize_primitive_slice(self, v.get_char8_values(member_id)?),
+            TypeKind::CHAR8 => {
+                for c in v.get_char8_values(member_id)? {
+                    self.serialize_char8_type(*c)?;
+                }
+            }
             TypeKind::CHAR16 => todo!(),
             TypeKind::STRING8 => {
                 for v in v.get_string_values(member_id)? {
@@ -384,6 +388,14 @@ impl<'a, E: EndiannessWrite, V: EncodingVersion> XTypesSerializer<'a, E, V> {
     fn serialize_primitive_type<O: Ossize + AsBytes>(&mut self, v: &O) {
         V::align(self, O::SSIZE);
         v.as_bytes::<E>(&mut self.writer);
+    }
+
+    /// CHAR8 is a single byte holding the ISO 8859-1 code of the character (read back with
+    /// `char::from(u8)`); a `char` above U+00FF has no CHAR8 encoding and is an error.
+    fn serialize_char8_type(&mut self, v: char) -> XTypesResult<()> {
+        let byte = u8::try_from(u32::from(v)).map_err(|_| XTypesError::InvalidData)?;
+        self.serialize_primitive_type(&byte);
+        Ok(())
     }
 
     /// Serialization Rule (3)
@@ -1096,9 +1108,6 @@ impl Ossize for f64 {
 impl Ossize for bool {
     const SSIZE: usize = 1;
 }
-impl Ossize for char {
-    const SSIZE: usize = 1;
-}
 
 trait AsBytes {
     fn as_bytes<'a, E: EndiannessWrite>(&self, writer: &mut CdrWriter<'a>);
@@ -1161,11 +1170,6 @@ impl AsBytes for f32 {
 impl AsBytes for f64 {
     fn as_bytes<'a, E: EndiannessWrite>(&self, writer: &mut CdrWriter<'a>) {
         writer.write_slice(&E::to_bytes_f64(*self));
-    }
-}
-impl AsBytes for char {
-    fn as_bytes<'a, E>(&self, writer: &mut CdrWriter<'a>) {
-        writer.write_slice(self.to_string().as_bytes());
     }
 }
 
